@@ -440,7 +440,9 @@ def jobs_C02(tier, seed):
     extra = [('pcsaft_xassoc', {'kind': 'pcsaft', 'src': src((P + 'rehner2020.json', ['water_4C', 'methanol']))}, 2, 350.0, 1000.0),
              ('pcsaft_assoc3b', {'kind': 'pcsaft', 'src': src((P + 'gross2001.json', ['hexane']), (P + 'rehner2020.json', ['water_3B']))}, 2, 350.0, 1000.0),
              # one self-associating C-type site (nc = 1; no shipped record has one): closed-form C-C path
-             ('pcsaft_csite', {'kind': 'pcsaft', 'src': src(('../../verif/symtrace/params/csite.json', ['acid_one_c_site']), (P + 'gross2001.json', ['heptane']))}, 2, 350.0, 1000.0)]
+             ('pcsaft_csite', {'kind': 'pcsaft', 'src': src(('../../verif/symtrace/params/csite.json', ['acid_one_c_site']), (P + 'gross2001.json', ['heptane']))}, 2, 350.0, 1000.0),
+             # SAFT-VR Mie with its own association term (2B methanol + inert)
+             ('saftvrmie_assoc', {'kind': 'saftvrmie', 'src': src(('saftvrmie/lafitte2013.json', ['hexane', 'methanol']))}, 2, 350.0, 1000.0)]
     for name, spec, n, T, V in systems(tier, seed) + extra:
         jobs.append(('ext/' + name, {'job': 'ext', 'model': spec, 'x': state(n, T, V, seed)}, {'budget_s': 300 if tier == 'quick' else 1800, 'soft': name.endswith('~')}))
     return jobs
@@ -600,7 +602,9 @@ def jobs_C01(tier, seed):
     # by implicit differentiation (NDERIV Newton steps in dual numbers): the traces differ by construction, the native
     # finite-difference confirmation decides
     extra = [('pcsaft_xassoc', {'kind': 'pcsaft', 'src': src((P + 'rehner2020.json', ['water_4C', 'methanol']))}, 2, 350.0, 1000.0),
-             ('pcsaft_csite', {'kind': 'pcsaft', 'src': src(('../../verif/symtrace/params/csite.json', ['acid_one_c_site']), (P + 'gross2001.json', ['heptane']))}, 2, 350.0, 1000.0)]
+             ('pcsaft_csite', {'kind': 'pcsaft', 'src': src(('../../verif/symtrace/params/csite.json', ['acid_one_c_site']), (P + 'gross2001.json', ['heptane']))}, 2, 350.0, 1000.0),
+             # SAFT-VR Mie with its own association term (2B methanol + inert)
+             ('saftvrmie_assoc', {'kind': 'saftvrmie', 'src': src(('saftvrmie/lafitte2013.json', ['hexane', 'methanol']))}, 2, 350.0, 1000.0)]
     for name, spec, n, T, V in systems(tier, seed) + extra:
         x = state(n, T, V, seed)
         x2 = state(n, T * 1.13, V * 0.91, seed + 17)
